@@ -279,3 +279,117 @@ def brief(m):
 			o[k + "_len"] = len(o[k])
 			o[k] = list(o[k][:12])
 	return o
+
+
+# ---------------------------------------------------------------------------
+# PDU-level layouts (C17): versions 0, 1 and 2, both directions, written from
+# the TRXD protocol description.  Values are dicts with the field names the
+# statement uses: ver tn fn rssi toa256 cir nope mod tsc pwr scpir batch shadow
+# trxn soft-bits / hard-bits pad bpdu.
+
+def mod_burst_len(mod):
+	""" burst length for the 4-bit modulation/TSC-set code; None = reserved """
+	if mod >> 2 == 0b00:
+		return 148
+	if mod >> 2 == 0b11:
+		return 296
+	if mod >> 1 == 0b010:
+		return 444
+	if mod >> 1 == 0b100:
+		return 592
+	if mod >> 1 == 0b101:
+		return 740
+	if mod == 0b0110:
+		return 148
+	return None
+
+
+def _hdr0(ver, tn, spare = 0):
+	return bytes([(ver << 4) | (spare << 3) | tn])
+
+
+def _mts(v):
+	return bytes([(v["nope"] << 7) | (v["mod"] << 3) | v["tsc"]])
+
+
+def pdu_encode(kind, v):
+	bits_key = "soft-bits" if kind.endswith("rx") else "hard-bits"
+	if kind == "v0rx":
+		return _hdr0(0, v["tn"]) + struct.pack(">I", v["fn"]) + bytes([-v["rssi"]]) + struct.pack(">h", v["toa256"]) \
+			+ bytes(v["soft-bits"]) + bytes(v.get("pad", b""))
+	if kind in ("v0tx", "v1tx"):
+		return _hdr0(int(kind[1]), v["tn"]) + struct.pack(">I", v["fn"]) + bytes([v["pwr"]]) + bytes(v["hard-bits"])
+	if kind == "v1rx":
+		out = _hdr0(1, v["tn"]) + struct.pack(">I", v["fn"]) + bytes([-v["rssi"]]) + struct.pack(">h", v["toa256"]) \
+			+ _mts(v) + struct.pack(">h", v["cir"])
+		if not v["nope"]:
+			out += bytes(v["soft-bits"])
+		return out
+
+	def part(p, first):
+		o = bytearray()
+		o.append(((2 << 4) if first else 0) | p["tn"])
+		o.append((p["batch"] << 7) | ((0 if first else p["shadow"]) << 6) | p["trxn"])
+		o += _mts(p)
+		if kind == "v2rx":
+			o.append(-p["rssi"])
+			o += struct.pack(">h", p["toa256"])
+			o += struct.pack(">h", p["cir"])
+		else:
+			o.append(p["pwr"])
+			o += struct.pack(">b", p["scpir"])
+			o += b"\0\0\0"
+		if first:
+			o += struct.pack(">I", p["fn"])
+		if not p["nope"]:
+			o += bytes(p[bits_key])
+		return bytes(o)
+	return part(v, True) + b"".join(part(p, False) for p in v.get("bpdu", []))
+
+
+def rand_pdu(r, kind, nsub = None, mod = None, nope = None):
+	def burst(n):
+		return r.randbytes(n)
+	v = {"tn": r.randrange(8), "fn": r.choice((0, 1, HYPERFRAME - 1, 2**32 - 1, r.randrange(2**32)))}
+	if kind in ("v0rx", "v1rx", "v2rx"):
+		v["rssi"] = -r.choice((0, 1, 47, 110, 120, 255, r.randrange(256)))
+		v["toa256"] = r.choice((-32768, 32767, 0, -1, r.randint(-32768, 32767)))
+	if kind == "v0rx":
+		v["soft-bits"] = burst(r.choice((148, 444)))
+		v["pad"] = r.choice((b"", b"\0\0"))
+		return v
+	if kind in ("v0tx", "v1tx"):
+		v["pwr"] = r.randrange(256)
+		v["hard-bits"] = bytes(r.getrandbits(1) for _ in range(r.choice((148, 444))))
+		return v
+
+	def mts(p):
+		p["nope"] = int(r.random() < 0.2) if nope is None else nope
+		p["mod"] = r.choice([m for m in range(16) if m != 0b0111]) if mod is None else mod
+		p["tsc"] = r.randrange(8)
+		if not p["nope"]:
+			p["soft-bits" if kind.endswith("rx") else "hard-bits"] = burst(mod_burst_len(p["mod"]))
+	if kind == "v1rx":
+		v["cir"] = r.choice((-1280, 1280, 0, -32768, 32767, r.randint(-2000, 2000)))
+		mts(v)
+		return v
+
+	def part(p, first):
+		p["batch"] = r.getrandbits(1)
+		p["trxn"] = r.choice((0, 1, 63, r.randrange(64)))
+		if not first:
+			p["tn"] = r.randrange(8)
+			p["shadow"] = r.getrandbits(1)
+		if kind == "v2rx":
+			p["rssi"] = -r.randrange(256)
+			p["toa256"] = r.randint(-32768, 32767)
+			p["cir"] = r.randint(-32768, 32767)
+		else:
+			p["pwr"] = r.randrange(256)
+			p["scpir"] = r.choice((-128, 127, 0, r.randint(-128, 127)))
+		mts(p)
+		return p
+	part(v, True)
+	n = r.randint(0, 8) if nsub is None else nsub
+	v["bpdu"] = [part({}, False) for _ in range(n)]
+	return v
